@@ -904,6 +904,13 @@ func streamCont(o *Out, r *rand.Rand, n int, thorough bool) {
 		{"a = make([]int64, 3)\na[0] = 1\na[1] = 2\na[2] = 3\ntry {\na[0:3] = [7, 8, \"x\"]\n} catch e {\n}\na", "[]int64[int64:1 int64:2 int64:3]"},
 		{"a = make([]int64, 3)\na[0] = 1\na[1] = 2\na[2] = 3\ntry {\na[1:3] = [7, [8]]\n} catch e {\n}\na", "[]int64[int64:1 int64:2 int64:3]"},
 		{"b = [1, 2, 3]\nr = \"ok\"\ntry {\nb[1:3] = b[0:2]\nif b != [1, 1, 2] {\nr = \"not what copy gives\"\n}\n} catch e {\nif b != [1, 2, 3] {\nr = \"changed by a failed statement\"\n}\n}\nr", "string:" + hexOf("ok")},
+		// a store into a string changes the string where it is held: a typed slot, a struct field, a variable bound from one
+		{"a = make([]string, 2)\na[0] = \"abc\"\na[0][1] = \"X\"\na[0]", "string:" + hexOf("aXc")},
+		{"a = make([]string, 1)\na[0] = \"abc\"\na[0][len(a[0])] = \"d\"\na[0]", "string:" + hexOf("abcd")},
+		{"a = make([]string, 1)\na[0] = \"abc\"\nx = a[0]\nx[2] = \"X\"\n[x, a[0]]", "[]iface[string:" + hexOf("abX") + " string:" + hexOf("abc") + "]"},
+		{"s = make(struct { N string })\ns.N = \"abc\"\ns.N[0] = \"X\"\ns.N[len(s.N)] = \"d\"\ns.N", "string:" + hexOf("Xbcd")},
+		{"a = make([]string, 1)\na[0] = \"abc\"\nr = []\nfor v in a {\nv[0] = \"X\"\nr += v\n}\nr", "[]iface[string:" + hexOf("Xbc") + "]"},
+		{"x = make(string)\nx[0] = \"a\"\nx[1] = \"b\"\nx", "string:" + hexOf("ab")},
 		// the result of a function is a value, also the IMPLICIT result of a body that ends in an expression statement: a store through its address
 		// does not reach the slot it was read from (as with `return a[0]`)
 		{"a = [1]\nf = func() { a[0] }\np = &f()\n*p = 5\na[0]", "int64:1"},
